@@ -1416,6 +1416,12 @@ class Authenticated(BaseClientHandler):
                 raise No("There are pending untagged responses")
 
         async with cmd.ready_and_okay(self.mbox):
+            # While this command waited for its turn another client's
+            # EXPUNGE may have run: its EXPUNGEs are now pending for us and
+            # our sequence numbers are stale.
+            #
+            if not cmd.uid_command and self.pending_expunges():
+                raise No("There are pending untagged responses")
             try:
                 results = await self.mbox.search(
                     cmd.search_key, cmd.uid_command, cmd.timeout_cm
@@ -1479,6 +1485,12 @@ class Authenticated(BaseClientHandler):
         self.fetch_while_pending_count = 0
         try:
             async with cmd.ready_and_okay(self.mbox):
+                # While this command waited for its turn another client's
+                # EXPUNGE may have run: its EXPUNGEs are now pending for us
+                # and our sequence numbers are stale.
+                #
+                if not cmd.uid_command and self.pending_expunges():
+                    raise No("There are pending EXPUNGEs.")
                 msg_set = (
                     sorted(cmd.msg_set_as_set) if cmd.msg_set_as_set else []
                 )
@@ -1574,6 +1586,12 @@ class Authenticated(BaseClientHandler):
         #
         try:
             async with cmd.ready_and_okay(self.mbox):
+                # While this command waited for its turn another client's
+                # EXPUNGE may have run: its EXPUNGEs are now pending for us
+                # and our sequence numbers are stale.
+                #
+                if not cmd.uid_command and self.pending_expunges():
+                    raise No("There are pending EXPUNGEs.")
                 msg_set = (
                     sorted(cmd.msg_set_as_set) if cmd.msg_set_as_set else []
                 )
